@@ -811,7 +811,7 @@ def gen_services_case(rng: Any) -> dict[str, Any]:
 
 # ---- service scans that use a database an earlier run left behind ------------------------------------------------------
 DB_TIMEOUT = 0.2  # UDS timeout of DB-backed scans (real seconds; these ECU models answer every request at once)
-DB_WALL = 200.0  # real-time watchdog for one DB-backed history (earlier run + service scan; seconds of work, mostly fsync)
+DB_WALL = 120.0  # real-time watchdog for one DB-backed history (earlier run + service scan; seconds of work, mostly fsync)
 _db_seq = 0
 
 
@@ -1094,11 +1094,18 @@ def check_services(ctx: Any, case: dict[str, Any]) -> None:
         path = ctx.mkscratch() / f"c10-{_db_seq}.sqlite"
         em.remove_db(path)
         try:
-            out = em.run_real(db_history(case, path), DB_WALL)
+            try:
+                out = em.run_real(db_history(case, path), DB_WALL)
+            except TimeoutError:
+                # a real-time watchdog on a loaded machine proves nothing by firing once: the case is repeated, only a repeated stall is reported
+                dh.stop_leaked_connections()
+                ctx.reach("services.db.repeated-after-watchdog")
+                em.remove_db(path)
+                out = em.run_real(db_history(case, path), DB_WALL)
         except TimeoutError:
             dh.stop_leaked_connections()
             ctx.case(ident)
-            ctx.violation("services/db/no-termination/wall-clock", f"an earlier run plus a service scan on its database (seconds of work) did not finish within {DB_WALL:.0f} s", w)
+            ctx.violation("services/db/no-termination/wall-clock", f"an earlier run plus a service scan on its database (seconds of work) did not finish within {DB_WALL:.0f} s, twice", w)
             return
         finally:
             em.remove_db(path)
